@@ -1,5 +1,6 @@
 import AgVerif.Model.Proto
 import AgVerif.Model.ShortCircuit
+import AgVerif.Model.WriterVisit
 open AgVerif AgVerif.Proto AgVerif.ShortCircuit
 
 /-! line protocol for C25
@@ -86,6 +87,22 @@ def showGraph (G : CGraph) : String :=
   s!"entry={showName G.entry} " ++
     " ".intercalate (ns.map fun x => s!"{showTree x.c}>{showName x.t},{showName x.f}")
 
+/-- `c0:num:t:f:follow|-`  or  `e0:num` -/
+def parseWNodes (s : String) : Option (List (Nat × Nat × WriterVisit.WKind)) :=
+  (s.splitOn ",").mapM fun x =>
+    match x.splitOn ":" with
+    | [n, num, t, f, fo] =>
+      match parseName n, num.toNat?, parseName t, parseName f with
+      | some n, some num, some t, some f =>
+        if fo == "-" then some (n, num, .cond t f none)
+        else (parseName fo).map fun fo => (n, num, .cond t f (some fo))
+      | _, _, _, _ => none
+    | [n, num] =>
+      match parseName n, num.toNat? with
+      | some n, some num => some (n, num, .ret)
+      | _, _ => none
+    | _ => none
+
 def handle (line : String) : String :=
   match words line with
   | ["sc", e, cs, ss, tr] =>
@@ -117,6 +134,14 @@ def handle (line : String) : String :=
   | ["pr", k, t] =>
     match k.toNat?, parseTree t.toList with
     | some k, some (c, []) => (writerPrint k ⟨0, c, 1, 2⟩).2.render
+    | _, _ => "bad-op"
+  | ["wr", e, ns] =>
+    match parseName e, parseWNodes ns with
+    | some e, some ns =>
+      let g : WriterVisit.WGraph :=
+        ⟨fun n => (ns.find? (fun x => x.1 == n)).map (·.2.2), fun n => ((ns.find? (fun x => x.1 == n)).map (·.2.1)).getD 0⟩
+      let st := WriterVisit.visitNode g (2 * ns.length + 4) [] e ⟨[], []⟩
+      " ".intercalate (st.out.map fun (n, sw) => s!"{showName n}:{if sw then 1 else 0}")
     | _, _ => "bad-op"
   | _ => "bad-op"
 
